@@ -79,8 +79,8 @@ TENSORS = [
     ("int64/empty", lambda: _t(TP.INT64, [0], raw_data=b"")),
     ("float/empty-no-field", lambda: _t(TP.FLOAT, [0, 3])),
     ("float/default-location", lambda: _t(TP.FLOAT, [1], float_data=[2.0], data_location=TP.DEFAULT)),
-    ("float/external", lambda: _t(TP.FLOAT, [2, 3], external=[("location", "weights.bin"), ("offset", "4096"), ("length", "24")])),
-    ("uint8/external-location-only", lambda: _t(TP.UINT8, [5], external=[("location", "sub/w.data")])),
+    ("float/external", lambda: _t(TP.FLOAT, [2, 3], external=[("location", "./weights.bin"), ("offset", "4096"), ("length", "24")])),
+    ("uint8/external-location-only", lambda: _t(TP.UINT8, [5], external=[("location", "sub/./nested//w.data")])),
     # STRING tensors: TensorProto.string_data is 'repeated bytes' - arbitrary byte strings, not NUL terminated text
     ("string/trailing-nul", lambda: _t(TP.STRING, [3], string_data=[b"key\x00", b"\x00", b"pad\x00\x00\x00"])),
     ("string/nul-positions-rank2", lambda: _t(TP.STRING, [2, 3], string_data=[b"a\x00b", b"\x00lead", b"", b"\x00\x00", b"x", b"a much longer element than the others\x00"])),
